@@ -219,3 +219,66 @@ Proof.
   { apply (forallb_existsb_false eng_char); [assumption|]. intros x Hx. unfold eng_char, is_digit, is_surrogate, c_dot, c_minus, c_E, c_plus in *. lia. }
   unfold text_ok, contains. unfold ch in *. now rewrite H1, H2.
 Qed.
+
+(* ---------------------------------------------------------------- quantize(10^-prec) of a value within the declared scale *)
+Lemma pow10_add a b : pow10 (a + b) = pow10 a * pow10 b.
+Proof. unfold pow10. apply N.pow_add_r. Qed.
+Lemma pow10_pos a : 0 < pow10 a.
+Proof. unfold pow10. apply N.neq_0_lt_0. apply N.pow_nonzero. discriminate. Qed.
+
+Lemma ndigits_bound c : c < pow10 28 -> (28 <? ndigits c) = false.
+Proof.
+  intros H. unfold ndigits. pose proof (dec_N_length c 28 H ltac:(lia)) as HL.
+  change (@length ch) with (@length N) in *. lia.
+Qed.
+
+Lemma lt_pow10_any neg c e k : dec_lt_pow10 false c e k = true -> dec_lt_pow10 neg c e k = true.
+Proof. unfold dec_lt_pow10. destruct (c =? 0); [reflexivity|]. destruct neg; [reflexivity|]. exact (fun H => H). Qed.
+
+Lemma quantize_within size prec neg c e :
+  prec <=? size = true -> 1 <=? size = true -> size <=? 28 = true -> dec_fits size prec c e = true ->
+  let c' := c * pow10 (Z.to_N (e + Z.of_N prec)) in
+  dec_quantize c e prec = Some (c', (- Z.of_N prec)%Z) /\
+  dec_lt_pow10 neg c' (- Z.of_N prec) (Z.of_N size - Z.of_N prec) = true /\
+  dec_quantize c' (- Z.of_N prec) prec = Some (c', (- Z.of_N prec)%Z).
+Proof.
+  intros Hps H1 H28 Hfit c'. unfold dec_fits in Hfit.
+  apply andb_true_iff in Hfit. destruct Hfit as [Hfit Hlt].
+  assert (He : (- Z.of_N prec <= e <= 0)%Z) by lia.
+  (* the bound c' < 10^size (or c' = 0) *)
+  assert (Hb : c' < pow10 size).
+  { unfold dec_lt_pow10 in Hlt. destruct (c =? 0) eqn:Ec.
+    - apply N.eqb_eq in Ec. unfold c'. rewrite Ec. cbn. apply pow10_pos.
+    - destruct (e ?= Z.of_N size - Z.of_N prec)%Z eqn:Ecmp; try discriminate.
+      apply N.ltb_lt in Hlt. apply Z.compare_lt_iff in Ecmp.
+      assert (Hs : size = Z.to_N (Z.of_N size - Z.of_N prec - e) + Z.to_N (e + Z.of_N prec)) by lia.
+      rewrite Hs at 1. rewrite pow10_add. unfold c'.
+      apply N.mul_lt_mono_pos_r; [apply pow10_pos|exact Hlt]. }
+  assert (Hb28 : c' < pow10 28).
+  { eapply N.lt_le_trans; [exact Hb|]. unfold pow10. apply N.pow_le_mono_r; [discriminate|lia]. }
+  split; [|split].
+  - unfold dec_quantize. assert (E : (- Z.of_N prec <=? e)%Z = true) by lia. rewrite E.
+    replace (e - - Z.of_N prec)%Z with (e + Z.of_N prec)%Z by lia. fold c'. now rewrite ndigits_bound.
+  - apply lt_pow10_any. unfold dec_lt_pow10. destruct (c' =? 0); [reflexivity|].
+    assert (Ecmp : (- Z.of_N prec ?= Z.of_N size - Z.of_N prec)%Z = Lt) by (apply Z.compare_lt_iff; lia).
+    rewrite Ecmp. apply N.ltb_lt.
+    replace (Z.to_N (Z.of_N size - Z.of_N prec - - Z.of_N prec)) with size by lia. exact Hb.
+  - unfold dec_quantize. rewrite Z.leb_refl.
+    replace (- Z.of_N prec - - Z.of_N prec)%Z with 0%Z by lia. change (pow10 (Z.to_N 0)) with 1. rewrite N.mul_1_r.
+    now rewrite ndigits_bound.
+Qed.
+
+Lemma quantized_equal neg c e prec :
+  (- Z.of_N prec <= e)%Z ->
+  dec_eqb neg c e neg (c * pow10 (Z.to_N (e + Z.of_N prec))) (- Z.of_N prec) = true.
+Proof.
+  intros He. unfold dec_eqb.
+  destruct ((c =? 0) && (c * pow10 (Z.to_N (e + Z.of_N prec)) =? 0)); [reflexivity|].
+  rewrite eqb_reflx. cbn [andb].
+  destruct (e <=? - Z.of_N prec)%Z eqn:E.
+  - assert (e = (- Z.of_N prec)%Z) by lia. subst e.
+    replace (- Z.of_N prec + Z.of_N prec)%Z with 0%Z by lia.
+    replace (- Z.of_N prec - - Z.of_N prec)%Z with 0%Z by lia.
+    change (pow10 (Z.to_N 0)) with 1. rewrite !N.mul_1_r. apply N.eqb_refl.
+  - replace (e - - Z.of_N prec)%Z with (e + Z.of_N prec)%Z by lia. apply N.eqb_refl.
+Qed.
